@@ -374,10 +374,11 @@ func cmdCheck(args []string) int {
 		samples = append(samples, lr.samples...)
 	}
 	// structural obligations
-	sr := runStructural(id, prog, specs)
+	sr := runStructural(id, prog, specs, known)
 	nObl += sr.n
 	nDis += sr.discharged
 	nViol += sr.violations
+	nKnown += sr.known
 	reports = append(reports, sr.reports...)
 	violationLines = append(violationLines, sr.lines...)
 	for _, r := range sr.reports {
